@@ -34,7 +34,6 @@ structure CryptoRun where
   diverges : Nat := 0
   cover : Std.HashMap String Nat := {}
 
-def bumpC (m : Std.HashMap String Nat) (k : String) : Std.HashMap String Nat := m.insert k (m.getD k 0 + 1)
 
 def cryptoLine (st : CryptoRun) (lineNo : Nat) (line : String) : Except String (CryptoRun × List String) :=
   match line.splitOn "\t" with
@@ -45,7 +44,7 @@ def cryptoLine (st : CryptoRun) (lineNo : Nat) (line : String) : Except String (
     let ok := scanHolds (get "leaks") modes ((get "kekdelta").toNat?.getD 99)
     let outs := if ok then [] else
       [s!"PROPFAIL C05 at_rest hist={get "hist"} line={lineNo} step={get "step"} op={get "op"} leaks={get "leaks"} modes={get "modes"} kekdelta={get "kekdelta"}"]
-    .ok ({ st with cases := st.cases + 1, fails := st.fails + outs.length, cover := bumpC st.cover s!"scan:{get "op"}:{get "files"}" }, outs)
+    .ok ({ st with cases := st.cases + 1, fails := st.fails + outs.length, cover := bump st.cover s!"scan:{get "op"}:{get "files"}" }, outs)
   | "tamper" :: rest =>
     let fs := fields rest
     let get := fun k => (lookup fs k).getD ""
@@ -53,7 +52,7 @@ def cryptoLine (st : CryptoRun) (lineNo : Nat) (line : String) : Except String (
     let outs := if ok then [] else
       [s!"PROPFAIL C05 tamper hist={get "hist"} line={lineNo} kind={get "kind"} pos={get "pos"} result={(get "result").take 200}"]
     let rc := if (get "result").startsWith "diff" then "diff" else get "result"
-    .ok ({ st with cases := st.cases + 1, fails := st.fails + outs.length, cover := bumpC st.cover s!"tamper:{get "kind"}:{rc}" }, outs)
+    .ok ({ st with cases := st.cases + 1, fails := st.fails + outs.length, cover := bump st.cover s!"tamper:{get "kind"}:{rc}" }, outs)
   | "splice" :: rest =>
     let fs := fields rest
     let get := fun k => (lookup fs k).getD ""
@@ -65,14 +64,14 @@ def cryptoLine (st : CryptoRun) (lineNo : Nat) (line : String) : Except String (
     let o1 := if bad then [s!"PROPFAIL C05 splice hist={get "hist"} line={lineNo} dek={get "dek"} db={get "db"} ver={get "ver"} result={res}"] else []
     let o2 := if res != want then [s!"DIVERGE splice hist={get "hist"} line={lineNo} dek={get "dek"} db={get "db"} ver={get "ver"} code={res} model={want}"] else []
     .ok ({ st with cases := st.cases + 1, fails := st.fails + o1.length, diverges := st.diverges + o2.length,
-                   cover := bumpC st.cover s!"splice:{get "dek"}{get "db"}{get "ver"}:{res}" }, o1 ++ o2)
+                   cover := bump st.cover s!"splice:{get "dek"}{get "db"}{get "ver"}:{res}" }, o1 ++ o2)
   | "golden" :: rest =>
     let fs := fields rest
     let get := fun k => (lookup fs k).getD ""
     let ok := get "state" == get "want" && get "next" == get "wantnext" && get "pure" == "1"
     let outs := if ok then [] else
       [s!"PROPFAIL C03 golden_v1 line={lineNo} name={get "name"} pure={get "pure"} next={get "next"} wantnext={get "wantnext"} state={(get "state").take 300} want={(get "want").take 300}"]
-    .ok ({ st with cases := st.cases + 1, fails := st.fails + outs.length, cover := bumpC st.cover s!"golden:{get "name"}" }, outs)
+    .ok ({ st with cases := st.cases + 1, fails := st.fails + outs.length, cover := bump st.cover s!"golden:{get "name"}" }, outs)
   | "open" :: rest =>
     let fs := fields rest
     let get := fun k => (lookup fs k).getD ""
